@@ -5,6 +5,9 @@ use rotov_harness::Prng;
 use rotov_harness::driver::hex;
 use serde_json::{Value, json};
 
+#[path = "boundary.rs"]
+pub mod boundary;
+
 #[derive(Clone, Debug)]
 pub struct CaseFile {
     pub name: String,
@@ -675,10 +678,70 @@ pub fn type_decls(p: &mut Prng) -> (String, String, String) {
     (src, defs.join(";"), order.join(","))
 }
 
+// ------------------------------------- random members of the boundary classes
+
+/// a random member of the class `boundary::long_tokens` draws its
+/// representatives from: any token kind, character width, alignment, length
+/// 49..=200 (sometimes much longer), any place; sometimes two long tokens
+fn long_token_case(p: &mut Prng) -> Case {
+    let kind = *p.pick(boundary::TOKEN_KINDS);
+    let w = 1 + p.below(4) as usize;
+    let a = p.below(w as u64 + 2) as usize;
+    let len = if p.chance(1, 10) { 200 + p.below(2000) as usize } else { 49 + p.below(152) as usize };
+    let tok = boundary::token(kind, w, a, len);
+    let pi = p.below(boundary::PLACES.len() as u64) as usize;
+    let mut src = boundary::place(pi, &tok);
+    if p.chance(1, 4) {
+        src = mutate_chars(p, &src);
+    }
+    Case::single("long-token", src)
+}
+
+/// a random nest of type constructors around a variable that is then bound
+/// into itself (class of `boundary::cyclic_types`)
+fn cyclic_type_case(p: &mut Prng) -> Case {
+    const W: &[(&str, &str)] = &[
+        ("[", "]"), ("Option.Some(", ")"), ("{ inner: ", " }"), ("{ d: 1, inner: ", " }"), ("W { inner: ", " }"),
+        ("W2 { f: { inner: ", " }, n: 1 }.f"), ("E.X(", ")"), ("E2.P(1, ", ")"), ("[", "].get(0)"), ("(", ")"),
+        ("{ ", " }"), ("if true { ", " } else { [] }"),
+    ];
+    let vars = ["x", "y", "z"];
+    let n = 1 + p.below(3) as usize;
+    let mut body = String::new();
+    for v in &vars[..n] {
+        body.push_str(&match p.below(4) {
+            0 => format!("let {v} = Option.None; "),
+            1 => format!("let {v} = {{ inner: [] }}; "),
+            _ => format!("let {v} = []; "),
+        });
+    }
+    let steps = 1 + p.below(4);
+    for _ in 0..steps {
+        let tgt = vars[p.below(n as u64) as usize];
+        let mut e = vars[p.below(n as u64) as usize].to_string();
+        for _ in 0..p.below(4) {
+            let (a, b) = *p.pick(W);
+            e = format!("{a}{e}{b}");
+        }
+        body.push_str(&match p.below(7) {
+            0 => format!("{tgt} = {e}; "),
+            1 => format!("{tgt} == {e}; "),
+            2 => format!("{tgt}.inner.push({e}); "),
+            3 => format!("let r = {e}; {tgt}.push(r); "),
+            4 => format!("{tgt} = Option.Some({e}); "),
+            _ => format!("{tgt}.push({e}); "),
+        });
+    }
+    let decls = boundary::decls_for(&body);
+    Case::single("cyclic-type attempt", format!("{decls}fn main() {{ {body}}}\n"))
+}
+
 // ----------------------------------------------------------------- dispatch
 
 pub fn generate(p: &mut Prng, seeds: &Seeds) -> Case {
-    match p.below(20) {
+    match p.below(22) {
+        20 => long_token_case(p),
+        21 => cyclic_type_case(p),
         0 | 1 | 2 => Case::single("random-tokens", random_tokens(p)),
         3 | 4 | 5 | 6 => {
             let s = p.pick(&seeds.programs[..]).clone();
